@@ -32,6 +32,10 @@ class C08(Prop):
             return etl.diff(a, b, buffersize=bs, strict=strict)[1]
         if meta.get('via') == 'recorddiff_subtracted':
             return etl.recorddiff(a, b, buffersize=bs, strict=strict)[1]
+        if meta.get('wrap'):
+            # inputs that are petl views already (sorted the other way round, sorted, or plain wrappers)
+            w = {'rsort': lambda t: etl.sort(t, reverse=True), 'sort': lambda t: etl.sort(t), 'wrap': etl.wrap}[meta['wrap']]
+            a, b = w(a), w(b)
         if meta.get('mixed'):
             # presorted inputs whose rows are lists on one side and tuples on the other
             a = [list(r) for r in etl.sort(a)]
@@ -56,13 +60,16 @@ class C08(Prop):
         alpha = gen.key_alphabet(rng)[:rng.choice([2, 3, 4])]
         pool = [tuple(rng.choice(alpha) for _ in range(w)) for _ in range(rng.choice([2, 3, 4]))]
 
-        def tab():
-            hdr = tuple(gen.header(rng, w))
+        hdrs = [tuple(gen.header(rng, w)), tuple(gen.header(rng, w))]
+        if rng.random() < 0.25:
+            pool = pool + hdrs          # data rows that look like a header row (of this table or of the other one)
+
+        def tab(hdr):
             n = rng.randint(0, maxrows)
             rows = tuple(rng.choice(pool) if rng.random() < 0.8 else tuple(gen.scalar(rng) for _ in range(w))
                          for _ in range(n))
             return (hdr,) + rows
-        return tab(), tab()
+        return tab(hdrs[0]), tab(hdrs[1])
 
     def cases(self, rng, tier):
         n = 200 if tier == 'quick' else 3000
@@ -83,6 +90,9 @@ class C08(Prop):
             st = rng.random() < 0.5
             yield Case('setop', ('complement', st, False, bs, ta, tb), {'via': rng.choice(['diff_added', 'diff_subtracted'])})
             yield Case('setop', ('recordcomplement', st, False, bs, ta, tb2), {'via': 'recorddiff_subtracted'})
+            wr = rng.choice(['rsort', 'rsort', 'sort', 'wrap'])
+            yield Case('setop', ('complement', st, False, bs, ta, tb), {'wrap': wr})
+            yield Case('setop', ('intersection', False, False, bs, ta, tb), {'wrap': wr})
             mixed = rng.choice(['lt', 'tl'])
             yield Case('setop', ('complement', st, False, None, ta, tb), {'mixed': mixed})
             yield Case('setop', ('intersection', False, False, None, ta, tb), {'mixed': mixed})
